@@ -8,7 +8,7 @@ export GODEBUG=goindex=0
 cd /verif/instr && go build -o /verif/bin/instr . || exit 1
 SCR=$(mktemp -d /dev/shm/verif-setup-XXXXXX)
 trap 'rm -rf "$SCR"' EXIT
-for spec in "1 seqcheck" "2 schedcheck"; do
+for spec in "1 seqcheck" "3 schedcheck"; do
   set -- $spec
   [ -d /verif/harness/cmd/$2 ] || continue
   /verif/bin/instr -out "$SCR/ov$1" -level $1 || exit 1
